@@ -318,22 +318,38 @@ def sym_ite(c, a, b):
     return SymInt(z3.If(c.e, a2.e, b2.e), min(alo, blo), max(ahi, bhi))
 
 
+_CONSTS = {}
+
+
+def _const(v, w):
+    k = (v, w)
+    c = _CONSTS.get(k)
+    if c is None:
+        if len(_CONSTS) > 50000:
+            _CONSTS.clear()
+        c = _CONSTS[k] = SymInt(z3.BitVecVal(v, w), v, v, w)
+    return c
+
+
 class SymInt:
     """Integer proxy.  BitVec(W)-backed with a conservative interval: an
     operation whose interval no longer fits W-1 bits raises Unmodelled instead
     of wrapping, so Python's unbounded-int semantics are preserved."""
-    __slots__ = ('e', 'lo', 'hi', 'id')
+    __slots__ = ('e', 'lo', 'hi', 'id', 'w')
 
-    def __init__(self, e, lo, hi):
+    def __init__(self, e, lo, hi, w=None):
         if lo > hi:
             # empty interval: the path is infeasible (or will be found so)
             lo, hi = hi, lo
-        if _bits(lo, hi) > e.size() - 1:
+        if w is None:
+            w = e.size()
+        if _bits(lo, hi) > w - 1:
             raise Unmodelled('integer magnitude beyond the %d-bit guard (%d..%d)'
-                             % (e.size(), lo, hi))
+                             % (w, lo, hi))
         self.e = e
         self.lo = lo
         self.hi = hi
+        self.w = w
         self.id = e.get_id()
 
     # -- helpers
@@ -344,7 +360,7 @@ class SymInt:
         return max(self.lo, r[0]), min(self.hi, r[1])
 
     def _w(self):
-        return self.e.size()
+        return self.w
 
     @staticmethod
     def lift(o, width=None):
@@ -354,7 +370,7 @@ class SymInt:
             o = int(o)
         if isinstance(o, int):
             w = width or (CUR.width if CUR is not None else W)
-            return SymInt(z3.BitVecVal(o, w), o, o)
+            return _const(o, w)
         if isinstance(o, SymBool):
             w = width or (CUR.width if CUR is not None else W)
             return SymInt(z3.If(o.e, z3.BitVecVal(1, w), z3.BitVecVal(0, w)), 0, 1)
@@ -368,7 +384,7 @@ class SymInt:
         if o is None:
             return NotImplemented
         lo, hi = lof(self.rng(), o.rng())
-        return SymInt(zf(self.e, o.e), lo, hi)
+        return SymInt(zf(self.e, o.e), lo, hi, self.w)
 
     # -- arithmetic
     def __add__(self, o):
@@ -566,6 +582,11 @@ class SymInt:
 
     # -- comparisons
     def _cmp(self, o, op):
+        if type(o) is int:
+            a = self.rng()
+            r = _static_cmp(a, o, op)
+            if r is not None:
+                return r
         o2 = self._lift(o)
         if o2 is None:
             from . import reals
@@ -702,6 +723,26 @@ class SymInt:
 
     def debug(self):
         return 'SymInt(%s in %s)' % (self.e, self.rng())
+
+
+def _static_cmp(a, c, op):
+    """Decide `x op c` from x's interval a, or None."""
+    lo, hi = a
+    if op == '<':
+        return True if hi < c else (False if lo >= c else None)
+    if op == '<=':
+        return True if hi <= c else (False if lo > c else None)
+    if op == '>':
+        return True if lo > c else (False if hi <= c else None)
+    if op == '>=':
+        return True if lo >= c else (False if hi < c else None)
+    if op == '==':
+        if c < lo or c > hi:
+            return False
+        return True if lo == hi == c else None
+    if c < lo or c > hi:
+        return True
+    return False if lo == hi == c else None
 
 
 _FLIP = {'<': '>', '<=': '>=', '>': '<', '>=': '<=', '==': '==', '!=': '!='}
